@@ -2,7 +2,8 @@
 SQLite store; which rows are present is compared (in Coq) with the filter and the __main__ rule.
 
 A program = a script (its functions live in __main__), two modules a.py (imports b) and b.py with module-level
-functions and methods of a class K.  Calls form a DAG (callee id > caller id), so the order in which calls start
+functions (some with a nested function) and methods of two classes K and L; several of them share a bare name within
+one file and the custom filters decide differently for them (by co_qualname).  Calls form a DAG (callee id > caller id), so the order in which calls start
 and complete is known statically; the script additionally dumps the co_filename of every generated function."""
 import ast
 import json
@@ -25,48 +26,108 @@ def tracer_skips_trace_types():
 
 
 class Fn:
-    def __init__(self, fid, where, name, is_method):
+    def __init__(self, fid, where, name, cls=None, nested_in=None):
         self.fid = fid
         self.where = where            # "main" | "a" | "b"
-        self.name = name
-        self.is_method = is_method
+        self.name = name              # bare name (co_name); NOT unique within a file
+        self.cls = cls                # None | "K" | "L"
+        self.nested_in = nested_in    # fid of the enclosing function for a nested function
         self.calls = []
 
     @property
-    def qualname(self):
-        return f"K.{self.name}" if self.is_method else self.name
+    def is_method(self):
+        return self.cls is not None
 
-    def ref_from(self, where):
-        """expression calling this function from module `where` with argument r"""
+    def qualname_in(self, fns):
+        if self.cls:
+            return f"{self.cls}.{self.name}"
+        if self.nested_in is not None:
+            return f"{fns[self.nested_in].qualname_in(fns)}.<locals>.{self.name}"
+        return self.name
+
+    def ref_from(self, caller):
+        """expression calling this function from the body of `caller` (a Fn, or None for the script's top level)"""
+        if self.nested_in is not None:
+            return f"{self.name}(r)"                       # only ever called by its enclosing function
+        where = "main" if caller is None else caller.where
         prefix = "" if where == self.where else self.where + "."
-        if self.is_method:
-            return f"{prefix}K().{self.name}(r)"
+        if self.cls:
+            return f"{prefix}{self.cls}().{self.name}(r)"
         return f"{prefix}{self.name}(r)"
+
+    def code_expr(self, fns):
+        """expression denoting a function object whose code lives in the same file (for the co_filename dump)"""
+        if self.nested_in is not None:
+            return fns[self.nested_in].code_expr(fns)
+        prefix = "" if self.where == "main" else self.where + "."
+        return f"{prefix}{self.cls + '.' if self.cls else ''}{self.name}"
+
+
+def collision_groups(fns):
+    """functions sharing a bare name within one file (>= 2 members)"""
+    g = {}
+    for f in fns:
+        g.setdefault((f.where, f.name), []).append(f.fid)
+    return [ids for ids in g.values() if len(ids) > 1]
 
 
 def gen_program(rnd, idx, directed_trace_types=False):
-    n_main = rnd.randrange(1, 4)
-    n_a = rnd.randrange(2, 6)
-    n_b = rnd.randrange(2, 5)
-    fns = []
-    for where, n in (("main", n_main), ("a", n_a), ("b", n_b)):
-        for j in range(n):
-            fid = len(fns)
-            is_method = where != "main" and rnd.random() < 0.3
-            fns.append(Fn(fid, where, f"{'m' if is_method else 'f'}{fid}", is_method))
-    if directed_trace_types:
-        cand = [f for f in fns if f.where == "a" and not f.is_method] or [f for f in fns if f.where == "a"]
-        cand[0].is_method = False
-        cand[0].name = "trace_types"
-    order = {"main": 0, "a": 1, "b": 2}
-    for f in fns:
-        later = [g for g in fns if g.fid > f.fid and order[g.where] >= order[f.where]]
-        k = rnd.choice([0, 0, 1, 1, 2])
-        f.calls = [g.fid for g in rnd.sample(later, min(k, len(later)))]
-    top = [rnd.randrange(len(fns)) for _ in range(rnd.randrange(2, 7))]
-    if directed_trace_types:
-        top.append([f.fid for f in fns if f.name == "trace_types"][0])
-    return {"idx": idx, "fns": fns, "top": top}
+    """Functions of the script, then of a.py, then of b.py.  In a.py / b.py several functions share a bare name:
+    methods `run` of two classes K and L, sometimes a module function `run` as well, and a nested function named like
+    another module function of the same file."""
+    while True:
+        fns = []
+        for j in range(rnd.randrange(1, 4)):
+            fns.append(Fn(len(fns), "main", f"f{len(fns)}"))
+        for where in ("a", "b"):
+            have_nested = False
+            for j in range(rnd.randrange(2, 5)):
+                outer = Fn(len(fns), where, f"f{len(fns)}")
+                fns.append(outer)
+                if not have_nested and rnd.random() < 0.5:
+                    have_nested = True
+                    fns.append(Fn(len(fns), where, f"n{len(fns)}", nested_in=outer.fid))
+            for cls in ("K", "L"):
+                for j in range(rnd.randrange(1, 3)):
+                    fns.append(Fn(len(fns), where, f"m{len(fns)}", cls=cls))
+        # ---- shared bare names ----
+        for where in ("a", "b"):
+            for cls in ("K", "L"):
+                rnd.choice([f for f in fns if f.where == where and f.cls == cls]).name = "run"
+            plain = [f for f in fns if f.where == where and f.cls is None and f.nested_in is None]
+            if rnd.random() < 0.5:
+                rnd.choice(plain).name = "run"
+        if directed_trace_types:
+            cand = [f for f in fns if f.where == "a" and f.cls is None and f.nested_in is None and f.name != "run"] or \
+                   [f for f in fns if f.where == "a" and f.cls is None and f.nested_in is None]
+            cand[0].name = "trace_types"
+        for n in fns:
+            if n.nested_in is not None:
+                others = [f for f in fns if f.where == n.where and f.cls is None and f.nested_in is None and f.fid != n.nested_in]
+                n.name = rnd.choice(others).name
+        # ---- call DAG ----
+        order = {"main": 0, "a": 1, "b": 2}
+        for f in fns:
+            children = [g.fid for g in fns if g.nested_in == f.fid]
+            # bare names that mean something else inside f's body: its nested functions; inside a nested function, itself
+            shadowed = {fns[c].name for c in children} | ({f.name} if f.nested_in is not None else set())
+            if f.nested_in is not None:
+                shadowed |= {fns[c].name for c in range(len(fns)) if fns[c].nested_in == f.nested_in}
+            later = [g for g in fns if g.fid > f.fid and order[g.where] >= order[f.where] and g.nested_in is None
+                     and not (g.cls is None and g.where == f.where and g.name in shadowed)]
+            k = rnd.choice([0, 0, 1, 1, 2])
+            f.calls = children + [g.fid for g in rnd.sample(later, min(k, len(later)))]
+        callable_top = [f.fid for f in fns if f.nested_in is None]
+        top = [rnd.choice(callable_top) for _ in range(rnd.randrange(2, 6))]
+        for ids in collision_groups(fns):             # every function that shares its bare name is really called
+            for i in ids:
+                top.append(fns[i].nested_in if fns[i].nested_in is not None else i)
+        if directed_trace_types:
+            top.append([f.fid for f in fns if f.name == "trace_types" and f.nested_in is None][0])
+        rnd.shuffle(top)
+        prog = {"idx": idx, "fns": fns, "top": top}
+        if len(history(prog)) <= 900:
+            return prog
 
 
 def history(prog):
@@ -88,27 +149,29 @@ def history(prog):
     return H
 
 
-def body(f, fns):
-    lines = ["    r = x + len([x])"]
+def body(f, fns, indent="    "):
+    lines = [f"{indent}r = x + len([x])"]
     for c in f.calls:
-        lines.append(f"    r += {fns[c].ref_from(f.where)}")
-    lines.append("    return r" if f.fid % 3 else "    return 7")   # expression / constant returns
+        g = fns[c]
+        if g.nested_in == f.fid:
+            lines.append(f"{indent}def {g.name}(x):\n{body(g, fns, indent + '    ')}")
+    for c in f.calls:
+        lines.append(f"{indent}r += {fns[c].ref_from(f)}")
+    lines.append(f"{indent}return r" if f.fid % 3 else f"{indent}return 7")   # expression / constant returns
     return "\n".join(lines)
 
 
 def module_src(where, fns, imports):
     out = list(imports)
-    plain = [f for f in fns if f.where == where and not f.is_method]
-    meths = [f for f in fns if f.where == where and f.is_method]
-    for f in plain:
-        out.append(f"def {f.name}(x):\n{body(f, fns)}\n")
-    if meths:
-        out.append("class K:")
-        for f in meths:
-            b = body(f, fns).replace("\n    ", "\n        ")
-            out.append(f"    def {f.name}(self, x):\n    {b}\n")
-    elif where != "main":
-        out.append("class K:\n    pass\n")
+    for f in fns:
+        if f.where == where and f.cls is None and f.nested_in is None:
+            out.append(f"def {f.name}(x):\n{body(f, fns)}\n")
+    if where != "main":
+        for cls in ("K", "L"):
+            out.append(f"class {cls}:")
+            for f in fns:
+                if f.where == where and f.cls == cls:
+                    out.append(f"    def {f.name}(self, x):\n{body(f, fns, '        ')}\n")
     return "\n".join(out) + "\n"
 
 
@@ -139,17 +202,24 @@ def run_program(rnd, workdir, prog, mode, env_names=None):
         f.write(module_src("b", fns, []))
     with open(os.path.join(d, "a.py"), "w") as f:
         f.write(module_src("a", fns, ["import b"]))
-    calls = "\n".join(f"{'    ' if mode == 'trace-custom' else ''}r = 1; {fns[t].ref_from('main')}" for t in prog["top"])
-    dump = ("import json as _j\n_j.dump({" +
-            ", ".join(f"'{f.fid}': {('' if f.where == 'main' else f.where + '.') + ('K.' if f.is_method else '') + f.name}.__code__.co_filename"
-                      for f in fns) + f"}}, open({names_out!r}, 'w'))\n")
+    calls = "\n".join(f"{'    ' if mode == 'trace-custom' else ''}r = 1; {fns[t].ref_from(None)}" for t in prog["top"])
+    dump = ("import json as _j\n_j.dump({" + ", ".join(f"'{f.fid}': {f.code_expr(fns)}.__code__.co_filename" for f in fns)
+            + f"}}, open({names_out!r}, 'w'))\n")
     main_defs = module_src("main", fns, ["import a, b", "import json, textwrap"])
     stdlib_calls = "json.dumps({'k': [1, 2]}); textwrap.dedent('  x')\n"
     admitted = None
     if mode in ("run-custom", "trace-custom"):
-        admitted = sorted(f.fid for f in fns if rnd.random() < 0.55 or f.name == "trace_types")
+        adm = {f.fid for f in fns if rnd.random() < 0.55 or f.name == "trace_types"}
+        for ids in collision_groups(fns):             # the filter decides differently for functions sharing a bare name
+            ids = list(ids)
+            rnd.shuffle(ids)
+            for pos, i in enumerate(ids):
+                if fns[i].name == "trace_types":
+                    continue
+                (adm.add if pos % 2 == 0 else adm.discard)(i)
+        admitted = sorted(adm)
         base = {"main": script, "a": "a.py", "b": "b.py"}
-        admit = {(base[fns[i].where], fns[i].qualname) for i in admitted}
+        admit = {(base[fns[i].where], fns[i].qualname_in(fns)) for i in admitted}    # by co_qualname, not by bare name
         with open(os.path.join(d, f"cfg{idx}.py"), "w") as f:
             f.write(CFG % (admit, db))
     env = common.sub_env({"PYTHONPATH": common.REPO + os.pathsep + common.VERIF + os.pathsep + d, "MT_DB_PATH": db})
@@ -178,7 +248,7 @@ def run_program(rnd, workdir, prog, mode, env_names=None):
             finally:
                 con.close()
     return {"idx": idx, "mode": mode, "env": env_names, "dir": d, "cmd": " ".join(cmd), "error": err,
-            "funcs": [{"id": f.fid, "module": "__main__" if f.where == "main" else f.where, "qualname": f.qualname,
+            "funcs": [{"id": f.fid, "module": "__main__" if f.where == "main" else f.where, "qualname": f.qualname_in(fns),
                        "co_name": f.name, "co_filename": filenames.get(str(f.fid)), "calls": f.calls} for f in fns],
             "top": prog["top"], "admitted": admitted, "history": history(prog), "rows": rows,
             "sources": {n: open(os.path.join(d, n)).read() for n in sorted(os.listdir(d)) if n.endswith(".py")}}
